@@ -7,11 +7,14 @@ MANIFEST = dict(
    note="Value graphs are followed to depth 6 (the harness builds depth <= 4). Parse on non-nil input is modelled only for the pointer path (validatePointer); that containers build fresh results from the input is covered by the reparse correspondence, not by a theorem. StrictParse returning the caller's pointer is checked by the correspondence (patch included). Structs with unexported reference-typed fields inside a default stay shared (stated limit of the patch). Trusted: Lean kernel, axioms propext/Classical.choice/Quot.sound, the Go harness (reflective digests and mutator).",
    design="DESIGN.md §3.4, §5 C15")
 
-MODULES = ["Gozod.Proofs.C15"]
+MODULES = ["Gozod.Proofs.C15", "Gozod.Proofs.C15Agg"]
 THEOREMS = [
     "Gozod.C15.c15_result_fresh", "Gozod.C15.copyOK", "Gozod.C15.c15_mut_frame", "Gozod.C15.c15_hist",
     "Gozod.C15.c15_input_unchanged", "Gozod.C15.c15_same_pointer", "Gozod.C15.graph_frame",
     "Gozod.C15.today_nested_default_shared",
+    # graphs with value-typed aggregates (structs / arrays held by value inside containers)
+    "Gozod.C15.g_copyOK", "Gozod.C15.g_result_fresh", "Gozod.C15.g_assign_frame", "Gozod.C15.g_hist",
+    "Gozod.C15.g_graph_frame", "Gozod.C15.rebuild_ext", "Gozod.C15.g_input_unchanged", "Gozod.C15.bulk_agg_copy_shared",
 ]
 
 
@@ -27,13 +30,30 @@ def key(op, impl, M, S):
         return "ptr:%s:%s:%s:%s" % (t[2], what, typ, variant.split("/")[0])
     if t[1] == "dflt":
         return "%s-aliased:%s:depth%s" % (t[2], typ, t[3])
+    if t[1] == "val":
+        # val:<entry>:input-written:<schema type>:<top-level kind of the tree>:<Go type of the first cell that changed>
+        kind = how.split(":", 1)[1] if ":" in how else how
+        diff = next((x[5:] for x in cm if x.startswith("diff=")), "?")
+        return "val:%s:input-written:%s:%s:%s" % (t[2], typ, kind, diff)
+    if t[1] == "hist":
+        depth = next((x[6:] for x in cm if x.startswith("depth=")), "?")
+        iv, ifr, ih = (impl.split("|") + ["", "", ""])[:3]
+        sv, sfr, sh = ((S or "").split("|") + ["", "", ""])[:3]
+        if iv == sv and ifr == sfr and ih != sh:
+            return "%s-look:%s" % (t[2], typ)          # Parse(nil) returned something that does not look like the value
+        return "%s-aliased:%s:depth%s" % (t[2], typ, depth)
     return "reparse-changed:" + typ
 
 
 def describe(op):
     return ("after '#': <Base>.<variant> (harness/storex Bases(); variant = chaining call applied to the base), probe=<index into storex.Probes()>; "
             "ptr: a fresh pointer to the probe value goes through Parse / StrictParse; dflt: <Base>.<Default|Prefault>/<argument variant>, "
-            "Parse(nil), deep mutation of the result, Parse(nil) on the schema and on schema.Describe(), mutate, Parse(nil)")
+            "Parse(nil), deep mutation of the result, Parse(nil) on the schema and on schema.Describe(), mutate, Parse(nil); "
+            "val: schema=<generated tree> (harness/cmd/c15/schemas.go) with the by-value input built by storex.GraphGen from seed=<hex> "
+            "(the op body after '|' is the input graph: R=map/slice/pointee cell, A=struct/array by value, S=scalar, Z=nil, B=shared cell), "
+            "at=<first cell of the input that differs after the call>; hist: <Base>.<Default|Prefault> given the value generated from seed=<hex> "
+            "(graph after '|'), steps P = Parse(nil) on a member of the family (schema, derived schemas, a second schema given the same value), "
+            "M<j> = deep in-place mutation of the j-th result; observation = <same|CHANGED per later P>|<fresh|ALIASED>|<look of the first result>")
 
 
 def run(res):
